@@ -1,4 +1,7 @@
 import D2P.Props.C13Merge
+import D2P.Props.C13Views
+import D2P.Check.C13Src
+import D2P.Props.C16Extract
 /-!
 # C13 — `merge_elems` keeps a valid part valid
 
@@ -668,5 +671,51 @@ theorem C13_source_part_total (cfg cfg' : PartCfg) (num : Dict Str (List NumAttr
   obtain ⟨y, hy⟩ := C13_merge_total cfg root hg hv
   obtain ⟨dc, hdc, t⟩ := C13_part_total cfg' num y c (C13_merge_valid cfg root y hg hw hv hy)
   exact ⟨y, dc, hy, hdc, t⟩
+
+/-! ## the package, as stored -/
+
+theorem partOK_of_src (o : Opts) (a : Archive) (files : List Rel) (r : Rel) (hct : contentTypes.contains r.type = true)
+    (h : srcPartOK a files r = true) : partOK o a files r = true := by
+  unfold srcPartOK at h
+  cases hr : a.readXml r.path with
+  | error e => simp [hr] at h
+  | ok root =>
+    cases hp : partRels a files r with
+    | error e => simp [hr, hp] at h
+    | ok rels =>
+      simp only [hr, hp, Bool.and_eq_true] at h
+      obtain ⟨⟨hv, hg⟩, hw⟩ := h
+      obtain ⟨y, hy⟩ := C13_merge_total { html := o.html, dup := o.dup, rels := rels } root hg hv
+      have hvy := C13_merge_valid _ root y hg hw hv hy
+      unfold partOK rootElement
+      simp only [hr, ok_bind, hct, if_true, hp, hy]
+      exact hvy
+
+/-- **C13, the package as stored**: relationships listed, numbering readable, every content part readable
+and valid AS STORED ⇒ `validPkg`, hence every view of every attribute and `text` return (`C13_package_total`) -/
+theorem C13_source_package_total (o : Opts) (a : Archive) (h : validSrcPkg a = true) :
+    (∀ part ∈ viewParts, (∃ r, viewPars o a part = .ok r) ∧ (∃ r, viewRuns o a part = .ok r) ∧ (∃ r, viewPlain o a part = .ok r)) ∧
+    (∃ s, docText o a = .ok s) := by
+  apply C13_package_total
+  unfold validSrcPkg at h
+  unfold validPkg
+  cases hf : a.files with
+  | error e => simp [hf] at h
+  | ok files =>
+    cases hn : numId2Attrs a with
+    | error e => simp [hf, hn] at h
+    | ok num =>
+      simp only [hf, hn] at h ⊢
+      apply List.all_eq_true.2
+      intro t ht
+      have h1 := List.all_eq_true.1 h t ht
+      apply List.all_eq_true.2
+      intro r hr
+      have h2 := List.all_eq_true.1 h1 r hr
+      obtain ⟨_, hty⟩ := mem_filesOfType files _ r hr
+      have hct : contentTypes.contains r.type = true := by
+        have : r.type = lit t := by simpa using hty
+        rw [this]; exact partTypes_content t ht
+      exact partOK_of_src o a files r hct h2
 
 end D2P
